@@ -54,15 +54,23 @@ MANIFEST = dict(
          'run-time type name and the attribute names read are validated against the census. '
          'Pickling pair of Output (c09_pickle_state_roundtrip): __getstate__ / __setstate__ read off the source position by '
          'position; same field at every position, none twice, all data fields present => every field comes back with its '
-         'own value (the choice of the short form is only searched). '
+         'own value; the SHORT form (c09_pickle_short_form_export_equal): per optional field its disjuncts of the long-form '
+         'test, the restored constant and the declared type are read off the source, and for every value on which the '
+         'field\'s disjuncts fail the restored constant exports like the value (truthiness test of a float refuted: -0.0). '
+         'attrs field definitions (converter resolved to its run-time definition and classified path by path, validators, '
+         'defaults, factories, __attrs_post_init__) are read as part of the constructor a copy() calls; a converter that '
+         'copies on some paths only gives a conditional row. EntityFixup pickling (state_census) and Instance.from_entity '
+         '(c09_from_entity_shares_only: nothing of the entity but its read-only Output list reaches the Instance, the '
+         '$fixup values are copies) are censused. c09_property: the eight parts from generated-object hypotheses only. '
          'Operators: a run none of whose stores is tagged with an operand origin leaves every pre-existing object '
          'unchanged and returns only new objects; in-place operators leave everything separated from the receiver '
          'unchanged. Instancing: a collapse_one run with no template-tagged store or stored value leaves the template '
          'unchanged. Tie (every run): translators regenerate the five Gen tables from vmf.py, keyvalues.py, math.py, '
-         'instancing.py; 144 named instance obligations (per census label — 19 labels incl. Keyvalues_deepcopy / _pickle: '
+         'instancing.py; 153 named instance obligations (per census label — 20 labels incl. Keyvalues_deepcopy / _pickle, EntityFixup_pickle: '
          'copy_covers_fields, copy_fresh_mutables, copy_sources_match, copy_args_lossless, copy_export_equal, '
          'export_reads_are_fields; per kv branch; per operator family; collapse_*; table level incl. '
-         'all_classes_complete_and_independent, conditional_rows_are_joins, census_labels_of_a_class_agree, pickle_state_*:Output); census vs run-time identities, '
+         'all_classes_complete_and_independent, conditional_rows_are_joins, census_labels_of_a_class_agree, pickle_state_*:Output, '
+         'pickle_short_form_restores_export_equal:Output, instance_from_entity_shares_only_outputs, copy_hooks_delegate_to_copy); census vs run-time identities, '
          'argument flows vs the real constructors on boundary values, export reads vs traced attribute reads, operator '
          'rows vs real calls, kv model vs implementation; exported real object graphs certified in the kernel (separation; '
          'census rows: independence premises and completeness premises). Search: identity walk, export equality modulo IDs, random in-place mutation histories on either '
@@ -77,7 +85,11 @@ MANIFEST = dict(
          'attribute names read) per node; label, field order, arity and masks are derived / validated in the kernel: '
          'certificate:typed_nodes_validated; trusted there: type(o).__name__, getattr, the walker); CPython\'s generic copy '
          'protocol for a slot class without hooks (Keyvalues_deepcopy / _pickle rows; decided on real heaps by the row '
-         'certificates); the normalisation pre-pass of the copy translator (alias '
+         'certificates); pickle makes every object below the state new (EntityFixup_pickle row, decided on real unpickled '
+         'heaps); the abstraction of field values to the classes of SM/StorePickleShort.v (None / empty / non-empty string, '
+         '+0.0 / -0.0 / other float, every integer) and "the export writes a float with :g"; attrs generates the constructor '
+         'from the field definitions as documented (converter, then validator, then __attrs_post_init__); '
+         'the normalisation pre-pass of the copy translator (alias '
          'locals, loop-append = comprehension, single-return helpers inlined, guard clause = if/else ...: each rewrite is '
          'exact by construction, unknown shapes stay fail-closed); the flow modes as value functions (flow_fun); '
          'and the reading of a census row as its heap meaning (how_sem / how_complete / tstep / cstep: '
@@ -91,9 +103,9 @@ MANIFEST = dict(
          'values (str, tuples, frozen objects) are atoms of the heap model.',
 )
 
-IMPORTS = ['Coq.Lists.List', 'Coq.Bool.Bool', 'Coq.ZArith.ZArith', 'Coq.Strings.String', 'SV.SM.Store', 'SV.SM.StoreCert',
+IMPORTS = ['Coq.Lists.List', 'Coq.Bool.Bool', 'Coq.ZArith.ZArith', 'Coq.Strings.String', 'SV.SM.Store', 'SV.SM.StoreCert', 'SV.SM.StorePickleShort',
            'SV.SM.StoreCopy', 'SV.SM.StoreCopySrc', 'SV.SM.StoreCopyExport', 'SV.SM.StoreCopyFlow', 'SV.SM.StoreCopyWholeProofs', 'SV.SM.StoreRowCert', 'SV.SM.StoreExportCert', 'SV.SM.StoreTypedLabels', 'SV.SM.StoreCondRow', 'SV.SM.StorePickleState', 'SV.SM.KvAdd', 'SV.SM.KvAddFresh',
-           'SV.SM.OpPurity', 'SV.SM.CollapseCensus', 'SV.Gen.CopyCensus_gen', 'SV.Gen.CopyExportReads_gen',
+           'SV.SM.OpPurity', 'SV.SM.CollapseCensus', 'SV.SM.InstanceFromEntity', 'SV.Gen.CopyCensus_gen', 'SV.Gen.CopyExportReads_gen',
            'SV.Gen.C09OpCensus_gen', 'SV.Gen.C09Collapse_gen', 'SV.Props.C09']
 CORPUS = hc.VERIF / 'corpus' / 'C09'
 
@@ -649,6 +661,24 @@ def coq_heap(nodes, a, b, sa, sb) -> str:
     return f'export_ok {lit} {a}%positive {b}%positive {pl(sa)} {pl(sb)}'
 
 
+def coq_eval_parallel(ck: Ck, exprs: list[str], name: str, per_process: int, workers: int = 4) -> list[str] | None:
+    """ck.coq_eval over chunks of `per_process` expressions, up to `workers` coqc processes at a time (each chunk is an
+    independent scratch file; the kernel work per heap is the same, the wall time of the phase is divided).  None when
+    any chunk could not be evaluated."""
+    from concurrent.futures import ThreadPoolExecutor
+    chunks = [exprs[lo:lo + per_process] for lo in range(0, len(exprs), per_process)]
+    if not chunks:
+        return []
+
+    def one(k: int) -> list[str] | None:
+        return ck.coq_eval(IMPORTS, chunks[k], name=f'{name}{k}', preamble='Import ListNotations.\n', timeout=900)
+    with ThreadPoolExecutor(max_workers=workers) as ex:
+        parts = list(ex.map(one, range(len(chunks))))
+    if any(p is None for p in parts):
+        return None
+    return [v for p in parts for v in p]        # type: ignore[union-attr]
+
+
 def cert_cases(ck: Ck) -> None:
     """Export original+copy object graphs of real objects and let the kernel check the separation certificate
     (the premise of c09_export_ok_independent)."""
@@ -677,13 +707,7 @@ def cert_cases(ck: Ck) -> None:
         ck.hist('certificate_heap_nodes', len(nodes) // 50 * 50)
         if len(nodes) >= 4:
             ck.seen(('cert', kind, seed, variant))
-    vals: list[str] | None = []
-    for lo in range(0, len(exprs), 55):
-        part = ck.coq_eval(IMPORTS, exprs[lo:lo + 55], name='cert', preamble='Import ListNotations.\n', timeout=900)
-        if part is None:
-            vals = None
-            break
-        vals += part
+    vals = coq_eval_parallel(ck, exprs, 'cert', 14 if not ck.thorough else 55)
     if vals is None:
         ck.obligation('certificate:export_ok', False, 'exported heaps could not be evaluated by coqc')
         ck.tie_broken.append('certificate evaluation failed')
@@ -779,6 +803,7 @@ def cert_rows(ck: Ck, side: dict, eside: dict) -> None:
         'EntityFixup_copy_values': ('EntityFixup', lambda o: U.EntityFixup(o.copy_values())),
         'EntityFixup_copy': ('EntityFixup', lambda o: _copy.copy(o)),
         'EntityFixup_deepcopy': ('EntityFixup', lambda o: _copy.deepcopy(o)),
+        'EntityFixup_pickle': ('EntityFixup', lambda o: pickle.loads(pickle.dumps(o))),
         'Keyvalues_deepcopy': ('Keyvalues', lambda o: _copy.deepcopy(o)),
         'Keyvalues_pickle': ('Keyvalues', lambda o: pickle.loads(pickle.dumps(o))),
     }
@@ -842,13 +867,7 @@ def cert_rows(ck: Ck, side: dict, eside: dict) -> None:
             ck.hist('row_certificate_label', lab)
             ck.hist('row_certificate_depth', depth)
             ck.seen(('rowcert', lab, seed))
-    vals: list[str] | None = []
-    for lo in range(0, len(exprs), 55):
-        part = ck.coq_eval(IMPORTS, exprs[lo:lo + 55], name='rowcert', preamble='Import ListNotations.\n', timeout=900)
-        if part is None:
-            vals = None
-            break
-        vals += part
+    vals = coq_eval_parallel(ck, exprs, 'rowcert', 15 if not ck.thorough else 60)
     if vals is None:
         ck.obligation('certificate:census_rows_hold', False, 'exported heaps could not be evaluated by coqc')
         ck.obligation('certificate:export_rows_hold', False, 'exported heaps could not be evaluated by coqc')
@@ -911,6 +930,7 @@ def corr_census_runtime(ck: Ck, side: dict, unfresh: tuple = ()) -> None:
         'EntityFixup_copy_values': ('EntityFixup', lambda o, m: U.EntityFixup(o.copy_values())),
         'EntityFixup_copy': ('EntityFixup', lambda o, m: _copy.copy(o)),
         'EntityFixup_deepcopy': ('EntityFixup', lambda o, m: _copy.deepcopy(o)),
+        'EntityFixup_pickle': ('EntityFixup', lambda o, m: pickle.loads(pickle.dumps(o))),
         'Keyvalues_deepcopy': ('Keyvalues', lambda o, m: _copy.deepcopy(o)),
         'Keyvalues_pickle': ('Keyvalues', lambda o, m: pickle.loads(pickle.dumps(o))),
     }
@@ -994,6 +1014,7 @@ def corr_flows_runtime(ck: Ck, side: dict) -> None:
     makers: dict[str, tuple[str, Any]] = {
         'EntityFixup_copy': ('EntityFixup', lambda o: _copy.copy(o)),
         'EntityFixup_deepcopy': ('EntityFixup', lambda o: _copy.deepcopy(o)),
+        'EntityFixup_pickle': ('EntityFixup', lambda o: pickle.loads(pickle.dumps(o))),
         'Keyvalues_deepcopy': ('Keyvalues', lambda o: _copy.deepcopy(o)),
         'Keyvalues_pickle': ('Keyvalues', lambda o: pickle.loads(pickle.dumps(o))),
     }
@@ -1576,6 +1597,39 @@ def search_instancing(ck: Ck) -> None:
 
 
 # ------------------------------------------------------------------------------------------------ main
+def proof_side_batched(ck: Ck, props_file: str, obs: dict[str, str]) -> dict[str, bool]:
+    """The fixed proof-side work of a run in ONE coqc process instead of three: every instance obligation as
+    `Theorem inst_k : <expr> = true. Proof. vm_compute. reflexivity. Qed.` and ONE `Print Assumptions` of the tuple of all
+    theorems of the Props file (the assumptions of a tuple are the union of its components' assumptions: "Closed under the
+    global context" for the tuple = closed for each; 75 separate walks of the same dependency closure cost 3x as much).
+    Records exactly the obligations ck.theorems + ck.instance_obligations record.  Anything else than "process succeeded
+    and the tuple is closed" (an obligation that is false, an axiom somewhere, a parse surprise) falls back to those two
+    harness functions, which attribute the failure per theorem / per obligation."""
+    import re as _re
+    txt = (hc.ROCQ / props_file).read_text()
+    names = _re.findall(r"^\s*(?:Theorem|Lemma|Corollary)\s+([A-Za-z0-9_\']+)", txt, _re.M)
+    mod = 'SV.' + props_file[:-2].replace('/', '.')
+    onames = list(obs)
+    body = ''.join(f'Require Import {i}.\n' for i in IMPORTS) + f'Require Import {mod}.\n'
+    for k, n in enumerate(onames):
+        body += f'Theorem inst_{k} : ({obs[n]}) = true.\nProof. vm_compute. reflexivity. Qed.\n'
+    body += 'Definition c09_every_theorem := (' + ',\n  '.join('@' + n for n in names) + ').\n'
+    body += 'Print Assumptions c09_every_theorem.\n'
+    rc, out = ck.coq_scratch(body, 'proof_side', timeout=900) if names and onames else (1, '')
+    closed = [l for l in out.splitlines() if l.startswith('Closed under the global context')]
+    if rc == 0 and len(closed) == 1 and 'Axioms:' not in out:
+        for n in names:
+            ck.axioms[n] = []
+            ck.obligation(f'theorem:{n}', True, 'Qed; axioms: none (closed under the global context)')
+        for n in onames:
+            ck.obligation(f'instance:{n}', True, f'{obs[n]} = true')
+        ck.extra['proof_side'] = 'one coqc process: %d instance obligations (Qed) + Print Assumptions of the tuple of %d theorems' % (len(onames), len(names))
+        return {n: True for n in onames}
+    ck.extra['proof_side'] = 'batched run did not succeed (rc=%d): per-theorem / per-obligation run' % rc
+    ck.theorems(props_file)
+    return ck.instance_obligations(IMPORTS, obs)
+
+
 def run(ck: Ck) -> None:
     from translate import c09_copy
     _merge_known()
@@ -1608,6 +1662,12 @@ def run(ck: Ck) -> None:
     ck.assumptions.append('copy.deepcopy / pickle of a slot class that defines none of the copy-protocol hooks (Keyvalues today: checked '
                           'by the translator, fail-closed) builds a new object and fills every slot with a deep copy / the unpickled '
                           'value of the original slot (CPython copyreg); the resulting rows are decided on real heaps by the row certificates')
+    ck.assumptions.append('pickle serialises the state __getstate__ returns, so every object below it comes back new (row HDeep of '
+                          'EntityFixup_pickle; decided on real unpickled heaps by the row certificates); the short form of Output\'s '
+                          'state is modelled over value classes (None / empty / non-empty string, +0.0 / -0.0 / other float, every '
+                          'integer) and "the export writes a float with :g" (SM/StorePickleShort.v)')
+    ck.assumptions.append('attrs generates the constructor from the field definitions as documented: converter, then validator, then '
+                          '__attrs_post_init__; a default value is one object shared by all instances, a factory is called per instance')
     ck.assumptions.append('export is a function of the data fields it reads (export_reads census, static over-approximation '
                           'of the traced reads); IDs and the map back pointer are masked in the export comparison')
     ck.assumptions.append('the map back pointer (Entity.map, Solid.map, Side.map, VisGroup.vmf ...) is context: mutations '
@@ -1639,8 +1699,6 @@ def run(ck: Ck) -> None:
         ck.sample({'census_Side(field, kind, how, source expression)': side.get('census', {}).get('Side')})
     if built:
         lap('translate+build')
-        ck.theorems('Props/C09.v')
-        lap('print_assumptions')
         obs = {}
         for cls in side.get('classes', []):
             obs[f'copy_covers_fields:{cls}'] = f'copy_covers_fields census_{cls}'
@@ -1666,6 +1724,9 @@ def run(ck: Ck) -> None:
         obs['collapse_only_copies_enter_target'] = 'collapse_only_copies_enter collapse_enters'
         obs['collapse_copies_are_censused'] = ('collapse_copies_censused collapse_copies (List.map fst all_census) && '
                                                'Nat.eqb (List.length collapse_copies) %d' % len(cside.get('copies', [])))
+        obs['instance_from_entity_shares_only_outputs'] = (
+            'from_entity_shares_only ("outputs"%%string :: nil) instance_from_entity && from_entity_copies "fixup"%%string instance_from_entity && '
+            'Nat.eqb (List.length instance_from_entity) %d' % len(cside.get('from_entity', [])))
         obs['collapse_census_size'] = 'Nat.leb 20 (List.length collapse_writes) && Nat.leb 10 (List.length collapse_enters)'
         obs['all_classes_export_ok'] = 'all_export_ok'
         obs['all_sources_present'] = 'Nat.eqb (List.length all_sources) %d && all_sources_match' % len(side.get('classes', []))
@@ -1675,13 +1736,20 @@ def run(ck: Ck) -> None:
         obs['pickle_state_positions_match:Output'] = 'state_ok (names census_Output) output_state_put output_state_get'
         obs['pickle_state_short_form_matches:Output'] = ('state_short_ok output_state_put_short output_state_get_short '
                                                          'output_state_put output_state_get')
+        # premise of c09_pickle_short_form_export_equal: every original that takes the short state gets export-equal constants back
+        obs['pickle_short_form_restores_export_equal:Output'] = ('short_ok output_short_rows && short_rows_cover output_state_tail '
+                                                                 'output_short_rows && Nat.eqb (List.length output_short_rows) %d'
+                                                                 % len(side.get('pickle_state', {}).get('Output', {}).get('short_rows', [])))
+        # copy.copy(x) of a map object whose class defines __copy__ must be x.copy() (a hook that is not a plain delegation is an
+        # uncensused copy path; the search exercises the hook as copy variant 'copy.copy')
+        obs['copy_hooks_delegate_to_copy'] = 'forallb snd copy_hooks && Nat.eqb (List.length copy_hooks) %d' % len(side.get('copy_hooks', []))
         # premise of c09_cond_rows_checked: every conditional row is the join (weaker) of its two branch rows
         obs['conditional_rows_are_joins'] = 'cond_rows_ok all_census cond_rows && Nat.eqb (List.length cond_rows) %d' % len(side.get('cond_rows', []))
         # premise of c09_labels_of_a_class_same_mask: the census label of an exported node may be derived from its type name
         obs['census_labels_of_a_class_agree'] = 'labels_agree all_census class_of_label'
         # premise of c09_all_classes_complete_and_independent (the whole property for every copy method of the table)
         obs['all_classes_complete_and_independent'] = 'all_fresh && all_sources_match && all_export_ok'
-        res = ck.instance_obligations(IMPORTS, obs)
+        res = proof_side_batched(ck, 'Props/C09.v', obs)
         failing = [k for k, v in res.items() if not v]
         if failing:
             ck.tie_broken.append('copy census obligations failed: ' + ', '.join(failing))
@@ -1706,7 +1774,7 @@ def run(ck: Ck) -> None:
             if detail:
                 ck.extra['census_sources_of_offending_classes'] = {
                     c: side.get('sources', {}).get(c) for c in side.get('classes', []) if not res.get(f'copy_sources_match:{c}', True)}
-        lap('instance_obligations')
+        lap('theorems+instance_obligations')
         phase(ck, 'cert_cases', cert_cases)
         phase(ck, 'cert_rows', cert_rows, side, eside)
         lap('certificates')
@@ -1756,6 +1824,7 @@ def run(ck: Ck) -> None:
             ck.explain(f'instance:{b}_branch_appends_copy')
     if any_key('copy-incomplete:Output:', 'copy-raised:Output:'):
         ck.explain('instance:pickle_state_')
+        ck.explain('instance:pickle_short_form_')
     if any_key('copy-incomplete:'):
         ck.explain('correspondence:flows_vs_runtime')
         ck.explain('instance:all_sources_present')
@@ -1768,7 +1837,9 @@ def run(ck: Ck) -> None:
         ck.explain('translate:CopyCensus_gen')
     if any_key('shared-mutable:', 'mutation-visible:'):
         ck.explain('certificate:export_ok')
+        ck.explain('correspondence:census_vs_runtime')      # the census says "copied", the real copy shares: that input
     if any_key('shared-mutable:', 'mutation-visible:', 'copy-incomplete:'):
+        ck.explain('instance:copy_hooks_delegate_to_copy')
         ck.explain('instance:all_classes_complete_and_independent')
         ck.explain('certificate:census_rows_hold')
         ck.explain('certificate:export_rows_hold')
@@ -1776,6 +1847,7 @@ def run(ck: Ck) -> None:
         ck.explain('instance:collapse_never_writes_template')
         ck.explain('instance:collapse_only_copies_enter_target')
         ck.explain('instance:collapse_copies_are_censused')
+        ck.explain('instance:instance_from_entity_shares_only_outputs')
     if any_key('operand-changed:', 'operator-returns-operand:', 'op-census-row:'):
         for fam in ('Vec', 'Angle', 'Matrix'):
             ck.explain(f'instance:ops_store_nothing_to_operands:{fam}')
